@@ -122,7 +122,7 @@ var kinds = []kind{
 	{name: "remove-dup", share: shFresh, weight: 2},
 	{name: "member", share: shA, weight: 3},
 	{name: "mapcar", share: shFresh, weight: 3},
-	{name: "mapcar2", nargs: 2, share: shFresh, weight: 1},
+	{name: "mapcar2", nargs: 2, share: shFresh, weight: 2},
 	{name: "push", place: true, share: shA, weight: 5},
 	{name: "pushnew", place: true, share: shA, weight: 1},
 	{name: "pop", place: true, share: shA, weight: 4},
@@ -1561,6 +1561,15 @@ func (w *world) planProper(op Op, kd *kind) (p planned) {
 				want = append(want, a[i])
 			}
 			return setq(fmt.Sprintf("(mapcar (lambda (x y) x) %s %s)", A, B), want)
+		}
+		if op.K%3 == 2 {
+			// a function that keeps its &rest list: every result element is a
+			// list of its own (not the storage the mapping function hands the
+			// arguments over in)
+			for i := 0; i < n && i < len(b); i++ {
+				want = append(want, el{sub: []int{a[i].v, b[i].v}, id: newID()})
+			}
+			return setq(fmt.Sprintf("(mapcar (lambda (&rest r) r) %s %s)", A, B), want)
 		}
 		for i := 0; i < n && i < len(b); i++ {
 			want = append(want, el{v: a[i].v + b[i].v})
